@@ -249,15 +249,17 @@ getResult(
     }
     else
     {
-        double  theResult;
+        // The sort key is the string value of the result, and
+        // that string is converted to a number...
+        const GetCachedString   temp(theExecutionContext);
 
         theXPath->execute(
                 theNode,
                 thePrefixResolver,
                 theExecutionContext,
-                theResult);
+                temp.get());
 
-        return theResult;
+        return DoubleSupport::toDouble(temp.get(), theExecutionContext.getMemoryManager());
     }
 }
 
